@@ -19,7 +19,7 @@ LOG_MACROS = ("trace", "debug", "info", "warn", "error", "log")
 LEAN_KW = set("""end from at open type instance where then else do let fun match with if in have show by local prefix
 variable universe theorem def namespace section structure class inductive mutual deriving import export private
 protected partial unsafe macro syntax notation infix return for break continue try catch finally mut using extends
-calc Type Prop Sort abbrev example axiom opaque set_option attribute""".split())
+calc Type Prop Sort abbrev example axiom opaque set_option attribute matches""".split())
 
 INTLIT = ("intlit",)
 
@@ -132,7 +132,8 @@ class FnInfo:
 class Unit:
     """one Rust source file -> one Lean namespace"""
 
-    def __init__(self, repo, rel, ns, const_files=(), externals=None, struct_files=(), src=None, foreign_structs=None, tuple_structs=None):
+    def __init__(self, repo, rel, ns, const_files=(), externals=None, struct_files=(), src=None, foreign_structs=None,
+                 tuple_structs=None, fn_files=()):
         self.repo, self.rel, self.ns = repo, rel, ns
         # tuple structs (`struct KVV(pub String, pub (u64, Vec<u8>));`) are opaque unless listed here (or translating
         # from a source text, as the self-test does): then they are the tuple of their components
@@ -145,8 +146,13 @@ class Unit:
             return open(repo.rstrip("/") + "/" + r).read()
         self.fi = FileIndex(rel, src if src is not None else load(rel))
         self.struct_src = {n: rel for n in self.fi.structs}
+        self.fn_src = {}            # (impl, name) -> FileIndex of another file (see fn_files)
+        cache = {}
+        def index_of(r):
+            if r not in cache: cache[r] = FileIndex(r, load(r))
+            return cache[r]
         for r in struct_files:      # struct declarations of other files, used as local structures
-            idx = FileIndex(r, load(r))
+            idx = index_of(r)
             for n, fields in idx.structs.items():
                 if n not in self.fi.structs:
                     self.fi.structs[n] = fields; self.struct_src[n] = r
@@ -157,7 +163,14 @@ class Unit:
                     self.fi.enum_data[n] = vs; self.fi.enums[n] = None
             for n, vs in idx.enums.items():
                 self.fi.enums.setdefault(n, vs)
-        self.const_idx = [self.fi] + [FileIndex(r, load(r)) for r in const_files]
+        for r in fn_files:          # functions / methods (and the unit enums they mention) of other files, translated on
+            idx = index_of(r)       # demand like the functions of the unit's own file (target key `fns_from`)
+            for key, k in idx.fns.items():
+                if key not in self.fi.fns:
+                    self.fi.fns[key] = k; self.fn_src[key] = idx
+            for n, vs in idx.enums.items():
+                self.fi.enums.setdefault(n, vs)
+        self.const_idx = [self.fi] + [FileIndex(r, load(r)) for r in const_files] + [index_of(r) for r in fn_files]
         # structs of other crates whose fields the code reads (e.g. bitcoin::OutPoint {txid, vout}): declared in the
         # target list (trusted: field names and types are checked by rustc only through the differential harness)
         for n, flds in (foreign_structs or {}).items():
@@ -346,8 +359,13 @@ class Unit:
         self.in_progress.add(key)
         snap = ({k: list(v) for k, v in self.used_fields.items()}, list(self.used_enums), list(self.used_denums))
         try:
-            f = self.fi.function(impl, name)
+            src = self.fn_src.get(key)
+            if src is not None:
+                f = src.function(impl, name)
+            else:
+                f = self.fi.function(impl, name)
             info = FnTranslator(self, f).run()
+            if src is not None: info.rel = src.rel
         except RsError as e:
             self.failed[key] = "%s%s: %s" % ((impl + "::") if impl else "", name, e)
             if len(self.in_progress) == 1:
@@ -454,6 +472,7 @@ class FnTranslator:
         self.needs_deq = []
         self.local_consts = {}
         self.callees = []
+        self.ext_opaques = []  # opaque types that only occur in the types of externals
 
     def fresh(self, base="t"):
         self.n += 1
@@ -509,6 +528,7 @@ class FnTranslator:
             t = u.resolve(ty, self.impl)
             env[pat[1]] = t
             params.append((pat[1], t))
+            if t[0] == "struct": u.used_fields.setdefault(t[1], [])   # emitted even if no field is read
             if refmut: self.mut_params.append(pat[1])
         self.params_pre = params
         for mp in self.mut_params:
@@ -736,7 +756,7 @@ class FnTranslator:
     def has_try(self, e):
         if isinstance(e, tuple):
             if e and e[0] == "try": return True
-            if e and e[0] == "macro" and e[1] == "policy_err": return True
+            if e and e[0] == "macro" and e[1] in ("policy_err", "temporary_policy_err"): return True
             if e and e[0] == "macro": return False
             return any(self.has_try(x) for x in e)
         if isinstance(e, list):
@@ -799,19 +819,19 @@ class FnTranslator:
         elif e[1][0] == "path" and len(e[1][1]) == 1 and e[1][1][0] in getattr(self, "mut_params", []):
             t = dict(self.params_pre).get(e[1][1][0])
             if t and t[0] == "struct": impl = t[1]
-        def mut_recv(k):
+        def mut_recv(k, key=None):
             if not isinstance(k, int): return False
-            t = self.u.fi.toks
+            t = self.u.fn_src.get(key, self.u.fi).toks      # (functions of other files: target key `fns_from`)
             j = k
             while t[j].s != "(": j += 1
             return t[j + 1].s == "&" and t[j + 2].s == "mut"
         if impl:
             info = self.u.fns.get((impl, e[2]))
             if info is not None and info.mut_self: return True     # also `&self` methods that mutate through a lock
-            return mut_recv(self.u.fi.fns.get((impl, e[2])))
+            return mut_recv(self.u.fi.fns.get((impl, e[2])), (impl, e[2]))
         if e[1] == ("path", ["self"]): return False
         # any other receiver (field, alias, local of a struct type of this file): by name, conservatively
-        return any(mut_recv(k) for (im, nm), k in self.u.fi.fns.items() if nm == e[2])
+        return any(mut_recv(k, (im, nm)) for (im, nm), k in self.u.fi.fns.items() if nm == e[2])
 
     def pat_vars(self, p):
         k = p[0]
@@ -851,6 +871,16 @@ class FnTranslator:
                 _, at = self.expr(al, env, [], None)
                 env2 = dict(env)
                 env2[pat[1]] = ("alias", al, at)
+                return self.stmts(rest, tail, env2, fin)
+            if pat[0] == "pvar" and ("let:" + pat[1]) in self.u.externals:
+                return self.let_external(pat[1], e, line, rest, tail, env, fin)
+            if e[0] == "macro" and e[1] == "scoped_debug_return" and pat[0] == "pvar" \
+                    and "scoped_debug_return" not in getattr(self.u, "log_macros", ()):
+                # util/debug_utils.rs: a guard that `debug!`-prints its arguments when it is dropped while its flag is
+                # still set; the only thing the function does with it is `*guard = false` before returning Ok
+                self.dropped.append("scoped_debug_return! guard `%s` at line %d (logging only)" % (pat[1], line))
+                env2 = dict(env)
+                env2[pat[1]] = ("dropped",)
                 return self.stmts(rest, tail, env2, fin)
             fa = self.find_alias(e)
             if fa is not None and pat[0] == "pvar":
@@ -975,6 +1005,47 @@ class FnTranslator:
         restore(good[0][2])
         return good[0][1]
 
+    def let_external(self, name, e, line, rest, tail, env, fin):
+        """`let <name> = <callee>(<expression outside the subset>)` declared in the target list as
+        `"let:<name>": {"callee": f, "args": [vars], "ret": T}`: the value becomes the external function
+        `ext_let_<name>` of exactly the listed variables.  Fail closed: the initialiser must still be a call of
+        `callee` and its free variables must be exactly the declared ones."""
+        spec = self.u.externals["let:" + name]
+        x = e
+        while x[0] in ("paren", "ref", "deref"): x = x[1]
+        if not (x[0] == "call" and x[1][0] == "path" and x[1][1][-1] == spec["callee"]):
+            raise RsError("initialiser of `%s` (line %d) is not a call of %s" % (name, line, spec["callee"]))
+        fv = []
+        def walk(a):
+            if isinstance(a, tuple):
+                if a and a[0] == "macro": raise RsError("macro inside the opaque initialiser of `%s`" % name)
+                if len(a) == 2 and a[0] == "path" and isinstance(a[1], list) and len(a[1]) == 1 and a[1][0] in env \
+                        and a[1][0] not in fv:
+                    fv.append(a[1][0])
+                for y in a: walk(y)
+            elif isinstance(a, list):
+                for y in a: walk(y)
+        walk(x[2])
+        if sorted(fv) != sorted(spec["args"]):
+            raise RsError("the initialiser of `%s` (line %d) reads %s, declared: %s" % (name, line, sorted(fv), sorted(spec["args"])))
+        rt = self.u.parse_type(spec["ret"], self.impl)
+        pre, terms, tys = [], [], []
+        for a in spec["args"]:
+            term, t = self.expr(("path", [a]), env, pre, None)
+            terms.append(term if " " not in term or term.startswith("(") else "(" + term + ")")
+            tys.append(t)
+        lty = " → ".join([self.u.lt(t, False) for t in tys] + [self.u.lt(rt, False)])
+        for t in tys + [rt]:
+            self.u.opaques_of(t, self.ext_opaques)
+        ident = "ext_let_" + name
+        self.add_ext(ident, lty)
+        self.dropped.append("initialiser of `%s` at line %d: `%s(..)` is not interpreted, it is the external %s of (%s)"
+                            % (name, line, spec["callee"], ident, ", ".join(spec["args"])))
+        env2 = dict(env)
+        env2[name] = rt
+        pre.append(("let", lid(name), "(%s %s)" % (ident, " ".join(terms))))
+        return self.wrap(pre, self.stmts(rest, tail, env2, fin))
+
     def bind_pat(self, pat, t, env):
         """Lean pattern text for a Rust irrefutable pattern; extends env"""
         k = pat[0]
@@ -1009,6 +1080,13 @@ class FnTranslator:
             self.macro_stmt(e, env, pre)
             return self.wrap(pre, cont(env))
         if k == "assign":
+            try:
+                root = self.place_root(e[2])
+            except RsError:
+                root = None
+            if root in env and env[root] == ("dropped",):
+                if e[3][0] != "bool": raise RsError("assignment to a logging guard of something else than a literal")
+                return cont(env)
             pre = []
             env2 = self.assign(e, env, pre)
             return self.wrap(pre, cont(env2))
@@ -1285,7 +1363,13 @@ class FnTranslator:
             c, t = self.expr(("binary", "==" if name.endswith("eq") else "!=", a[0], a[1]), env, pre, BOOL)
             pre.append(("bind", "_", MCall("Rs.assert %s" % c)))
             return
-        if name == "policy_err":
+        if name == "scoped_debug_return":
+            raise RsError("scoped_debug_return! outside `let <var> = scoped_debug_return!(..)`")
+        if name in ("policy_err", "temporary_policy_err"):
+            if name == "temporary_policy_err":
+                # same filter decision (policy/mod.rs temporary_policy_error_with_filter); the error value differs
+                # only in its `temporary` kind, which the outcome type `Rs.Fail.err tag` does not carry
+                self.dropped.append("the `temporary` kind of the error of temporary_policy_err! at line %d" % line)
             a = split_macro_args(toks, self.u.rel)
             # receiver: `self`, or a local bound to a declared-and-dropped external such as `self.validator()` (its value
             # is `()`: whichever validator it is, its policy filter is the external `policy_filter_err`)
@@ -2025,6 +2109,29 @@ class FnTranslator:
 
     def try_(self, e, env, pre, want):
         x = e[1]
+        # res.map_err(|e| e.prepend_msg(..))? : policy/error.rs prepend_msg keeps tag and kind, changes the message only
+        if x[0] == "mcall" and x[2] == "map_err" and len(x[4]) == 1:
+            c = x[4][0]
+            if c[0] == "closure" and len(c[1]) == 1 and c[1][0][0] == "pvar" and c[2][0] == "mcall" \
+                    and c[2][1] == ("path", [c[1][0][1]]) and c[2][2] == "prepend_msg":
+                self.dropped.append("map_err(|e| e.prepend_msg(..)) at line %d (message only)" % x[5])
+                return self.try_(("try", x[1]), env, pre, want)
+            # ext(..).map_err(|e| policy_error(tag, msg))? on an external declared with a `Result<T, _>` return type
+            # (an `Option T` in Lean, `none` = the external returned Err): the Err becomes the tagged policy error
+            if c[0] == "closure" and len(c[1]) == 1 and self.is_result:
+                body = c[2]
+                if body[0] == "block" and not body[1] and body[2] is not None: body = body[2]
+                if body[0] == "call" and body[1][0] == "path" and body[1][1][-1] == "policy_error":
+                    pre2 = []
+                    tag = self.err_tag(body, env, pre2)
+                    if pre2: raise RsError("error value with effects")
+                    term, t = self.expr(x[1], env, pre, None)
+                    if t[0] not in ("extres", "tryres"):
+                        raise RsError("map_err(|e| policy_error(..)) on something else than an external Result")
+                    v = self.fresh()
+                    pre.append(("bind", v, MCall("Rs.okOr %s %s" % (term, tag))))
+                    return v, t[1]
+            raise RsError("map_err with a closure other than |e| e.prepend_msg(..) / |e| policy_error(..) is outside the subset")
         # opt.ok_or(e)? / opt.ok_or_else(|| e)?
         if x[0] == "mcall" and x[2] in ("ok_or", "ok_or_else") and self.is_result:
             o, ot = self.expr(x[1], env, pre, None)
@@ -2367,8 +2474,18 @@ class FnTranslator:
             return self.call_external("%s.%s" % (recv[2], m), args, env, pre, recv=(ft, fty), field_style=True)
         if recv == ("path", ["self"]) and self.trait_self and (self.impl, m) in self.u.fi.decl_only:
             return self.decl_external(self.impl, m, args, env, pre)
-        if recv[0] == "path" and len(recv[1]) == 1 and recv[1][0] not in env and recv[1][0] != "self":
+        if recv[0] == "path" and len(recv[1]) == 1 and recv[1][0] not in env and recv[1][0] != "self" \
+                and self.u.const_value(recv[1][0], self.local_consts) is None:
             raise RsError("method call on unknown %s" % recv[1][0])
+        if recv[0] == "path" and len(recv[1]) == 1 and recv[1][0] in env and env[recv[1][0]][0] in ("struct", "opaque") \
+                and "%s.%s" % (env[recv[1][0]][1], m) in self.u.externals:
+            # a method declared external in the target list: `ext_<Type>_<method> : Type → args → ret`
+            # (Type: a structure, or an opaque type such as a `&dyn Trait` parameter)
+            nm = "%s.%s" % (env[recv[1][0]][1], m)
+            if len(self.u.externals[nm]["params"]) == len(args) + 1:      # the receiver is listed among `params`
+                return self.call_external(nm, [recv] + list(args), env, pre)
+            rb, rbt = self.expr(recv, env, pre, None)
+            return self.call_external(nm, args, env, pre, recv=(rb, rbt))   # `params` are the arguments only
         if recv[0] == "path" and len(recv[1]) == 1 and recv[1][0] in env and env[recv[1][0]][0] == "struct" \
                 and (env[recv[1][0]][1], m) in self.u.fi.fns and m != "clone":
             v = recv[1][0]
@@ -2433,6 +2550,9 @@ class FnTranslator:
         if k == "tryres": return self.tryres_method(base, bt, m, args, env, pre)
         if k == "vec" or k == "iter": return self.list_method(base, bt, m, turbo, args, env, pre, want)
         if k == "str" and m in ("to_string", "as_str", "to_owned", "into", "as_ref") and not args: return base, bt, "val"
+        if k == "str" and m == "starts_with" and len(args) == 1:
+            px, pt = self.expr(args[0], env, pre, ("str",)); self.check_ty(pt, ("str",), "starts_with")
+            return "(String.isPrefixOf %s %s)" % (px, base), BOOL, "val"
         if k == "map" and bt[1] == ("str",) and m == "get" and len(args) == 1:
             kk, kt = self.expr(args[0], env, pre, ("str",)); self.check_ty(kt, ("str",), "map key")
             return "(Rs.smapGet %s %s)" % (base, kk), ("opt", bt[2]), "val"
@@ -2440,6 +2560,8 @@ class FnTranslator:
             kk, kt = self.expr(args[0], env, pre, ("str",)); self.check_ty(kt, ("str",), "map key")
             return "(Rs.smapGet %s %s).isSome" % (base, kk), BOOL, "val"
         if k in ("opaque", "struct") and (bt[1] + "." + m) in self.u.externals:
+            if len(self.u.externals[bt[1] + "." + m]["params"]) == len(args) + 1:
+                return self.call_external(bt[1] + "." + m, [recv] + list(args), env, pre)
             return self.call_external(bt[1] + "." + m, args, env, pre, recv=(base, bt))
         if k in ("map", "umap"):
             g, _, _ = self.map_fns(bt, m in ("get", "contains_key"))
